@@ -3,9 +3,11 @@
 
 pub mod evidence;
 pub mod rng;
+#[cfg(feature = "sched")]
 pub mod sched;
 
 pub use rng::{fnv64, mix, Rng};
+#[cfg(feature = "sched")]
 pub use sched::{SchedSpec, SimScheduler};
 
 /// Seed of a campaign (`VERIF_SEED`, default 1: fixed so the unchanged tree never alarms by chance).
